@@ -67,6 +67,8 @@ package trie
 //@     && forall(t, 0, nI(st), is_short(st, t) ==> rank1(INW(st), from_of(st, t)) + popcnt64(shortbm(st, t)) < nN(st), at)
 //@     && forall(t, 0, nI(st), ite(is_short(st, t), bitof(shortbm(st, t), 0), bitat(INW(st), from_of(st, t))) == 1
 //@            ==> bitat(NTW(st), rank1(INW(st), from_of(st, t)) + 1) == 0, at)
+//@     && forall(t, 0, nI(st), rank1(INW(st), from_of(st, t)) + 1 < nN(st), at)
+//@     && forall(t, 0, nI(st), rank1(INW(st), from_of(st, t) + size_of(st, t) - 1) + bitat(INW(st), from_of(st, t) + size_of(st, t) - 1) > rank1(INW(st), from_of(st, t)), at)
 
 //@ define LPP(st *SlimTrie) = st.inner.LeafPrefixes.PresenceBM.Words
 //@ define nL(st *SlimTrie) = nN(st) - nI(st)
@@ -350,12 +352,31 @@ func lemmaTypedGettersAgreeOnFound(st *SlimTrie, key string) (bool, bool, bool, 
 //@   ensures result[3] == "==0.5.10" && result[4] == "==0.5.11" && result[5] == "==0.5.12"
 //@   ensures fresh(result)
 
+// leftMost is put under contract for its use by searchID (path == nil); the path-recording use by the scan
+// (getGEPath) is bounded-checked only.
 //@ func (*SlimTrie).leftMost
-//@   property C02 C09 C04
-//@   opt kinds=frame
-//@   modifies *path, elems(*path)
-//@   allocates
-//@   loop 1 invariant path != nil ==> (samearr(*path, old(*path)) || fresh(*path))
+//@   property C02 C09 C10
+//@   opaque wf_iprefix wf_lprefix
+//@   opt stable=wf_core,wf_tree,wf_iprefix,wf_lprefix
+//@   requires wf_core(st) && wf_tree(st) && wf_iprefix(st) && wf_lprefix(st) && 0 <= idx && int(idx) < nN(st)
+//@   requires path == nil
+//@   loop 1 invariant 0 <= idx && int(idx) < nN(st) && qr != nil
+//@   loop 1 decreases nN(st) - int(idx)
+//@   after getNode#1 use at(qr.ithInner, idx)
+//@   after getNode#1 assert qr.isInner == 1 ==> rank1(INW(st), qr.from) >= int(idx) && rank1(INW(st), qr.from) + 1 < nN(st)
+//@   ensures 0 <= result && int(result) < nN(st) && bitat(NTW(st), result) == 0
+
+//@ func (*SlimTrie).rightMost
+//@   property C02 C09 C10
+//@   opaque wf_iprefix wf_lprefix
+//@   requires wf_core(st) && wf_tree(st) && wf_iprefix(st) && wf_lprefix(st) && 0 <= idx && int(idx) < nN(st)
+//@   loop 1 invariant 0 <= idx && int(idx) < nN(st)
+//@   loop 1 decreases nN(st) - int(idx)
+//@   after getNode#1 use at(qr.ithInner, idx)
+//@   after getNode#1 use rank1_le_ones(INW(st), int(qr.to) - 1)
+//@   after getNode#1 assert qr.isInner == 1 ==> rank1(INW(st), qr.from) >= int(idx)
+//@   after getNode#1 assert qr.isInner == 1 ==> rank1(INW(st), int(qr.to) - 1) + bitat(INW(st), int(qr.to) - 1) > rank1(INW(st), qr.from)
+//@   ensures 0 <= result && int(result) < nN(st) && bitat(NTW(st), result) == 0
 
 // ---------------------------------------------------------------------------
 // scan (C04): the refusal contract of getGEPath. Only the exceptional postcondition, the
@@ -481,3 +502,37 @@ func lemmaTypedGettersAgreeOnFound(st *SlimTrie, key string) (bool, bool, bool, 
 //@   modifies st.inner, st.vars, st.levels
 //@   ensures fresh(st.inner) && st.vars == nil && len(st.levels) == 1
 //@   ensures st.inner.NodeTypeBM == nil && st.inner.Leaves == nil && st.inner.LeafPrefixes == nil && st.inner.InnerPrefixes == nil
+
+//@ func (*SlimTrie).cmpLeafPrefix
+//@   property C02 C09 C10
+//@   requires st.inner != nil && qr != nil
+//@   ensures -1 <= result && result <= 1
+//@   ensures st.inner.LeafPrefixes == nil ==> result == 0
+
+//@ func (*SlimTrie).searchID
+//@   property C02 C03 C09 C10
+//@   opaque wf_iprefix wf_lprefix
+//@   requires wf_query(st) && len(key) <= 100000000
+//@   loop 1 invariant 0 <= eqID && int(eqID) < nN(st)
+//@   loop 1 invariant 0 <= i && i <= l + 4
+//@   loop 1 invariant i%4 == 0
+//@   loop 1 invariant qr != nil && qr.key == key && qr.keyBitLen == l && int(l) == 8*len(key) && ns == st.inner
+//@   loop 1 invariant (lID == -1 || (0 <= lID && int(lID) < nN(st))) && (rID == -1 || (0 <= rID && int(rID) < nN(st)))
+//@   loop 1 decreases nN(st) - int(eqID)
+//@   after getNode#1 use at(qr.ithInner, eqID)
+//@   after getNode#1 assert qr.isInner == 1 ==> rank1(INW(st), qr.from) >= int(eqID)
+//@   after getNode#1 assert qr.isInner == 1 && is_short(st, int(qr.ithInner)) ==> rank1(INW(st), qr.from) + popcnt64(qr.bm) < nN(st)
+//@   after strCmpUpto#1 assert result == 0 ==> len(key) - int(i)/8 >= len(qr.innerPrefix) - 1
+//@   at "i = i&(^7) + qr.innerPrefixLen" assert i <= l
+//@   after getLeftChildID#1 use rank1_le_ones(INW(st), int(qr.from) + labelidx(qr.key, int(qr.keyBitLen), int(qr.wordSize), int(i)))
+//@   after getLeftChildID#1 use rank1_mono(INW(st), int(qr.from), int(qr.from) + labelidx(qr.key, int(qr.keyBitLen), int(qr.wordSize), int(i)))
+//@   after getLeftChildID#1 use popcnt_bit_le(qr.bm, labelidx(qr.key, int(qr.keyBitLen), int(qr.wordSize), int(i)))
+//@   after getLeftChildID#1 use popcnt_mask_le(qr.bm, labelidx(qr.key, int(qr.keyBitLen), int(qr.wordSize), int(i)))
+//@   after getLeftChildID#1 use rank1_le_ones(INW(st), int(qr.to) - 1)
+//@   after getLeftChildID#1 assert int(qr.to - qr.from) != nS(st) ==> int(qr.from) + labelidx(qr.key, int(qr.keyBitLen), int(qr.wordSize), int(i)) < int(qr.to)
+//@   after getLeftChildID#1 assert result1 == 1 ==> int(result0) + 1 < nN(st)
+//@   after getLeftChildID#1 assert int(result0) >= int(eqID) && 0 <= result0
+//@   ensures st.inner.NodeTypeBM == nil ==> result0 == -1 && result1 == -1 && result2 == -1
+//@   ensures result0 == -1 || (0 <= result0 && int(result0) < nN(st))
+//@   ensures result1 == -1 || (0 <= result1 && int(result1) < nN(st))
+//@   ensures result2 == -1 || (0 <= result2 && int(result2) < nN(st))
